@@ -701,40 +701,53 @@ func (r *UnitRun) sliceArr(st *State, s *SliceVal) string {
 }
 
 // addView gives a slice whose offset is not the literal 0 a zero-based view of its window.
-func (r *UnitRun) addView(st *State, s *SliceVal, base string) {
+// Zero-based views. A slice with a symbolic offset is read through an array term `view` with view[k] == arr[off+k]
+// (contracts then talk about positions 0..len-1 and quantifier patterns contain no arithmetic). Views are looked up per
+// *state* by (backing array term, offset): the defining fact lives in the state that created the view and in its
+// clones, and a view is never used in a state that does not have that fact. (SliceVal values are shared between states,
+// so nothing is cached on them.)
+func viewKey(arr, off string) string { return "zb:" + arr + "@" + off }
+
+func (r *UnitRun) lookupView(st *State, s *SliceVal) (string, bool) {
+	if st == nil || s.Off == "0" {
+		return "", false
+	}
+	v, ok := st.ghost[viewKey(r.sliceArr(st, s), s.Off)]
+	return v.T, ok
+}
+
+func (r *UnitRun) addView(st *State, s *SliceVal, base string) string {
 	if s.Off == "0" || st == nil {
-		return
+		return ""
+	}
+	if v, ok := r.lookupView(st, s); ok {
+		return v
 	}
 	arr := r.sliceArr(st, s)
 	v := r.fresh(base+"_view", fmt.Sprintf("(Array Int %s)", s.ESrt))
 	qcount++
 	k := fmt.Sprintf("k!q%d", qcount)
 	st.assume(fmt.Sprintf("(forall ((%s Int)) (! (= (select %s %s) (select %s (+ %s %s))) :pattern ((select %s %s))))", k, v, k, arr, s.Off, k, v, k))
-	s.View = v
-	s.viewOf = arr
+	st.ghost[viewKey(arr, s.Off)] = Val{K: KRef, T: v, Sort: "view"}
+	return v
 }
 
 // zeroBased returns an array term holding the slice's window at positions 0..len-1 (the raw array when the offset is the
 // literal 0, otherwise a view, created on demand).
 func (r *UnitRun) zeroBased(st *State, s *SliceVal) string {
-	arr := r.sliceArr(st, s)
 	if s.Off == "0" {
-		return arr
-	}
-	if s.View != "" && s.viewOf == arr {
-		return s.View
+		return r.sliceArr(st, s)
 	}
 	if st == nil {
 		specFail("slice with a non-zero offset used as an array outside a state")
 	}
-	r.addView(st, s, "win")
-	return s.View
+	return r.addView(st, s, "win")
 }
 
 func (r *UnitRun) sliceElem(st *State, s *SliceVal, idx string) Val {
-	if s.View != "" && st != nil && r.sliceArr(st, s) == s.viewOf {
-		// the backing array has not been written since the view was taken
-		t := sx("select", s.View, idx)
+	if v, ok := r.lookupView(st, s); ok {
+		// a view of the current backing array exists in this state
+		t := sx("select", v, idx)
 		if s.Elem != nil {
 			return r.lenFact(st, r.fromTerm(t, s.Elem))
 		}
